@@ -149,6 +149,13 @@ def build_scenarios(singles, pairs, mixed, tier):
     for i, f in enumerate(sc.sample(TRIPLES, 800, vlib.seed() + 40)):
         scen.append(sc.scenario(f"t{i:04d}", f, [sc.chan(1)], sc.basic_workload(rng, both=(i % 2 == 1)),
                                 cfg={"init_tsn_a": WRAP_A, "init_tsn_b": WRAP_B} if i % 3 == 0 else None))
+    if tier == "thorough":
+        # beyond the property's fault alphabet (EXT, reported as drift): the peer's SCTP stack restarts on the same
+        # DTLS association - a fresh INIT with a different tag after the fault phase
+        s = sc.scenario("ext-restart", [], [sc.chan(1)], sc.basic_workload(rng, both=True), deadline_ms=2000)
+        s["restart_init_from"] = "A"
+        s["ext_only"] = "peer restart (new INIT with a different initiate tag on an established association)"
+        scen.append(s)
     # a closing / closed receive window with delayed or late-duplicated SACKs (stale zero-window SACK)
     scen += sc.window_scenarios(WINDOW_SCHEDS, rng, limit=40 if tier == "quick" else 400, seed=vlib.seed() + 31)
     for i, f in enumerate([[]] + mixed):
